@@ -133,6 +133,22 @@ func (g *geoTab) asnIdx(a geoip.ASN) int {
 type scenario struct {
 	Geo  geoTab
 	Reqs []reqDesc
+	// Geo2, if set, replaces Geo from request RefreshAt on (a refresh of the
+	// GeoIP databases in the middle of the history; the caches live on).
+	Geo2      *geoTab `json:",omitempty"`
+	RefreshAt int     `json:",omitempty"`
+	// onRefresh is run right before request RefreshAt (real geoip.File:
+	// rewrite the database files and call Refresh).
+	onRefresh func()
+}
+
+// geoAt is the GeoIP table in force for request i.
+func (sc *scenario) geoAt(i int) *geoTab {
+	if sc.Geo2 != nil && i >= sc.RefreshAt {
+		return sc.Geo2
+	}
+
+	return &sc.Geo
 }
 
 // MarshalJSON renders the tables as readable lists (replay files).
@@ -333,6 +349,7 @@ type obs struct {
 }
 
 type runner struct {
+	geo        *geoTab
 	st, twin   *stack.Stack
 	cur        *reqDesc
 	curTok     int
@@ -341,12 +358,22 @@ type runner struct {
 }
 
 func newRunner(g *geoTab, ecsCount, noECSCount int) (rn *runner) {
-	rn = &runner{}
-	geoData := func(_ string, ip netip.Addr) (*geoip.Location, error) { return g.loc(ip), nil }
-	geoSubnet := g.subnet
-	if g.liveData != nil {
-		geoData = func(_ string, ip netip.Addr) (*geoip.Location, error) { return g.liveData(ip), nil }
-		geoSubnet = g.liveSubnet
+	rn = &runner{geo: g}
+	// The tables are read through rn.geo, so that a scenario can replace them
+	// in the middle of a history.
+	geoData := func(_ string, ip netip.Addr) (*geoip.Location, error) {
+		if rn.geo.liveData != nil {
+			return rn.geo.liveData(ip), nil
+		}
+
+		return rn.geo.loc(ip), nil
+	}
+	geoSubnet := func(l *geoip.Location, fam netutil.AddrFamily) (netip.Prefix, error) {
+		if rn.geo.liveData != nil {
+			return rn.geo.liveSubnet(l, fam)
+		}
+
+		return rn.geo.subnet(l, fam)
 	}
 	rn.st = stack.New(&stack.Config{
 		Cache:     &dnssvc.CacheConfig{Type: dnssvc.CacheTypeECS, ECSCount: ecsCount, NoECSCount: noECSCount},
@@ -402,6 +429,12 @@ func runScenario(sc *scenario, ecsCount, noECSCount int) (os []obs) {
 	rn := newRunner(&sc.Geo, ecsCount, noECSCount)
 	os = make([]obs, len(sc.Reqs))
 	for i := range sc.Reqs {
+		if sc.Geo2 != nil && i == sc.RefreshAt {
+			if sc.onRefresh != nil {
+				sc.onRefresh()
+			}
+			rn.geo = sc.Geo2
+		}
 		os[i] = rn.serve(i, &sc.Reqs[i])
 	}
 
@@ -562,25 +595,35 @@ func b01(b bool) string {
 	return "0"
 }
 
-func (sc *scenario) lines() (ls []string) {
-	ls = append(ls, "reset", "fake 3")
+// modelLines are the driver ops describing the tables of g.
+func (g *geoTab) modelLines() (ls []string) {
 	// Sorted for a canonical text.
 	var ds, ss []string
-	for a, l := range sc.Geo.Data {
-		ds = append(ds, fmt.Sprintf("data %d %s %d %d %d", famOf(a), addrNat(a), l.Ctry, l.Subdiv, sc.Geo.asnOf(l.ASN)))
+	for a, l := range g.Data {
+		ds = append(ds, fmt.Sprintf("data %d %s %d %d %d", famOf(a), addrNat(a), l.Ctry, l.Subdiv, g.asnOf(l.ASN)))
 	}
-	for k, v := range sc.Geo.Sub {
+	for k, v := range g.Sub {
 		pf, pa, pb := 0, "0", 0
 		if !v.Err {
 			pf, pa, pb = famOf(v.P.Addr()), addrNat(v.P.Addr()), v.P.Bits()
 		}
-		ss = append(ss, fmt.Sprintf("sub %d %d %d %d %d %s %d", k.Loc.Ctry, k.Loc.Subdiv, sc.Geo.asnOf(k.Loc.ASN), k.Fam, pf, pa, pb))
+		ss = append(ss, fmt.Sprintf("sub %d %d %d %d %d %s %d", k.Loc.Ctry, k.Loc.Subdiv, g.asnOf(k.Loc.ASN), k.Fam, pf, pa, pb))
 	}
 	sortStrings(ds)
 	sortStrings(ss)
-	ls = append(ls, ds...)
-	ls = append(ls, ss...)
+
+	return append(ds, ss...)
+}
+
+func (sc *scenario) lines() (ls []string) {
+	ls = append(ls, "reset", "fake 3")
+	ls = append(ls, sc.Geo.modelLines()...)
 	for i := range sc.Reqs {
+		if sc.Geo2 != nil && i == sc.RefreshAt {
+			// The GeoIP tables are replaced; the caches of the model live on.
+			ls = append(ls, "regeo")
+			ls = append(ls, sc.Geo2.modelLines()...)
+		}
 		ls = append(ls, sc.Reqs[i].line(i))
 	}
 
@@ -738,7 +781,7 @@ func oracle(sc *scenario, os []obs, count func(string)) (vs []violation) {
 				continue
 			}
 			rrs := optRRsOf(up)
-			fam, allowed := allowedUpstream(&sc.Geo, rd)
+			fam, allowed := allowedUpstream(sc.geoAt(i), rd)
 			es := ecsOnly(rrs)
 			if len(es) == 0 {
 				add("upstream-without-ecs", "request %d: upstream query carries no ECS option at all", i)
@@ -1310,6 +1353,31 @@ func genValidECS(rng *rand.Rand, want4 bool) optDesc {
 }
 
 func genMalformedECS(rng *rand.Rand) optDesc {
+	if rng.IntN(4) == 0 {
+		// A stray bit beyond the prefix, at a random distance from it: inside
+		// the partial last byte of a prefix that is not byte-aligned, in the
+		// next byte, or at the very end of the address.
+		fam, n := uint16(1), 4
+		if rng.IntN(2) == 0 {
+			fam, n = 2, 16
+		}
+		addr := make([]byte, n)
+		for i := range addr {
+			addr[i] = byte(rng.IntN(256))
+		}
+		mask := rng.IntN(n * 8)
+		if rng.IntN(3) != 0 && mask%8 == 0 {
+			mask += 1 + rng.IntN(7)
+		}
+		for i := mask; i < n*8; i++ {
+			addr[i/8] &^= 0x80 >> (i % 8)
+		}
+		stray := []int{mask, mask + 1, min(n*8-1, (mask/8)*8+7), min(n*8-1, (mask/8+1)*8), n*8 - 1, mask + rng.IntN(n*8-mask)}[rng.IntN(6)]
+		stray = min(stray, n*8-1)
+		addr[stray/8] |= 0x80 >> (stray % 8)
+
+		return optDesc{ECS: true, Family: fam, Addr: addr, Mask: uint8(mask)}
+	}
 	switch rng.IntN(10) {
 	case 0:
 		return optDesc{ECS: true, Family: 0, Addr: []byte{0, 0, 0, 0}, Mask: 0}
@@ -1588,6 +1656,12 @@ func runCaseObs(r *hlib.Result, m *hlib.Model, sc *scenario, os []obs, ecsCount,
 			continue
 		}
 		seen[v.sig] = true
+		if sc.Geo2 != nil {
+			// A history with a refresh is reported as it is (positions matter).
+			r.Violate(v.sig, v.what, replay{Scenario: sc, Observed: observedLines(os)})
+
+			continue
+		}
 		// Shrink to a minimal scenario with the same signature.
 		small := hlib.Shrink(sc.Reqs, func(sub []reqDesc) bool {
 			s2 := &scenario{Geo: sc.Geo, Reqs: sub}
@@ -1667,10 +1741,19 @@ func runCaseObs(r *hlib.Result, m *hlib.Model, sc *scenario, os []obs, ecsCount,
 	answers := m.Batch(lines)
 	r.ModelOps += len(lines)
 	off := len(lines) - len(os)
+	var reqIdx []int
+	for j, l := range lines {
+		if strings.HasPrefix(l, "req ") {
+			reqIdx = append(reqIdx, j)
+		}
+	}
+	if sc.Geo2 != nil && sc.RefreshAt < len(reqIdx) {
+		off = reqIdx[0]
+	}
 	for i := range os {
-		got, want := canonObs(&os[i]), answers[off+i]
+		got, want := canonObs(&os[i]), answers[reqIdx[i]]
 		if got != want {
-			r.Disagree("model-vs-impl", fmt.Sprintf("request %d: implementation %q, model %q (op %q)", i, got, want, lines[off+i]),
+			r.Disagree("model-vs-impl", fmt.Sprintf("request %d: implementation %q, model %q (op %q)", i, got, want, lines[reqIdx[i]]),
 				replay{Scenario: sc, Observed: observedLines(os), Model: answers[off:]})
 
 			break
@@ -1739,6 +1822,9 @@ func main() {
 	}
 	geoFileCampaign(r, m, o.Rand("geoip-file"), nDB, 8)
 	geoCacheFinding(r, o.Rand("geoip-cache"), 6)
+	// The GeoIP databases are refreshed in the middle of a history.
+	refreshCampaign(r, m, o.Rand("refresh"), n/8)
+	geoRefreshCampaign(r, m, o.Rand("geoip-refresh"), nDB/2, 6)
 	fixedCases(r, m)
 	unitCampaign(r, m)
 	if o.Thorough() {
